@@ -50,14 +50,16 @@ type c09Case struct {
 }
 
 // statsProbe is a stats.Handler that looks at everything it is given.
-type statsProbe struct{ n int }
+// (grpc's stats.Handler contract: HandleRPC is called from several goroutines of one stream,
+// so the counter is atomic)
+type statsProbe struct{ n atomic.Int64 }
 
 func (s *statsProbe) TagRPC(ctx context.Context, i *stats.RPCTagInfo) context.Context {
 	_ = i.FullMethodName
 	return ctx
 }
 func (s *statsProbe) HandleRPC(ctx context.Context, st stats.RPCStats) {
-	s.n++
+	s.n.Add(1)
 	switch v := st.(type) {
 	case *stats.InPayload:
 		_ = v.Length + v.WireLength
